@@ -301,7 +301,15 @@ public:
     }
 
     /** outputs number of discrete elements of T in range*/
-    constexpr uint32_t size() const { return empty() ? 0 : 1 + (finish - start); }
+    constexpr uint32_t size() const
+    {
+        if (empty())
+            return 0;
+        if constexpr (std::is_integral_v<T>)  // unsigned arithmetic: finish - start may not fit the signed type
+            return 1u + (static_cast<uint32_t>(finish) - static_cast<uint32_t>(start));
+        else
+            return 1 + (finish - start);
+    }
 
     constexpr T first() const { return start; }
     constexpr T last() const { return finish; }
